@@ -59,6 +59,28 @@ def drawGenome : Nat → Rand (List Nat)
 def scoreGenome (c : Int) (g : List Nat) : TestResults (Score Int) :=
   TestResults.fromScores (g.map fun w => (w % 100 : Nat) + c)
 
+/-- `Ord`'s provided methods on one subject: `max(x, lo) min(x, lo) clamp(x, lo, hi)` -/
+def ord3 {T : Type} (E : Elem T) (sh : T → String) (x lo hi : T) : String :=
+  let c := match E.clamp x lo hi with | some r => sh r | none => "panic"
+  s!"{sh (E.max x lo)} {sh (E.min x lo)} {c}"
+
+/-- the subjects of the `ord3` request; collections and individuals carry a tag (1 = x, 2 = lo, 3 = hi) in a field
+    the order ignores, so that *which* operand comes back is visible on ties -/
+def ord3Codes (x lo hi : Int) : String :=
+  let TS := TestResults.elem SI
+  let TE := TestResults.elem EI
+  let rs (tag v : Int) : TestResults (Score Int) := ⟨[⟨tag⟩], ⟨v⟩⟩
+  let re (tag v : Int) : TestResults (Error Int) := ⟨[⟨tag⟩], ⟨v⟩⟩
+  let shS (r : TestResults (Score Int)) : String := s!"{(r.results.map (·.v)).headD 0}:{r.total.v}"
+  let shE (r : TestResults (Error Int)) : String := s!"{(r.results.map (·.v)).headD 0}:{r.total.v}"
+  " | ".intercalate [
+    ord3 SI (fun a => toString a.v) ⟨x⟩ ⟨lo⟩ ⟨hi⟩,
+    ord3 EI (fun a => toString a.v) ⟨x⟩ ⟨lo⟩ ⟨hi⟩,
+    ord3 TS shS (rs 1 x) (rs 2 lo) (rs 3 hi),
+    ord3 TE shE (re 1 x) (re 2 lo) (re 3 hi),
+    ord3 (EcIndividual.elem Elem.int TS) (fun i => s!"{i.genome}:{i.testResults.total.v}") ⟨1, rs 0 x⟩ ⟨2, rs 0 lo⟩ ⟨3, rs 0 hi⟩,
+    ord3 (EcIndividual.elem Elem.int TE) (fun i => s!"{i.genome}:{i.testResults.total.v}") ⟨1, re 0 x⟩ ⟨2, re 0 lo⟩ ⟨3, re 0 hi⟩]
+
 def handle (stdin stdout : IO.FS.Stream) (args : List String) : IO String := do
   match args with
   | ["cmp", a, cs] =>
@@ -66,6 +88,10 @@ def handle (stdin stdout : IO.FS.Stream) (args : List String) : IO String := do
     | some a, some cs =>
       pure (" ".intercalate (cs.map (implCodes a)) ++ " ## " ++ " ".intercalate (cs.map (specCodes a)))
     | _, _ => pure "bad-request"
+  | ["ord3", x, lo, hi] =>
+    match parseInt? x, parseInt? lo, parseInt? hi with
+    | some x, some lo, some hi => pure (ord3Codes x lo hi)
+    | _, _, _ => pure "bad-request"
   | "sum" :: pol :: rest =>
     match parseIntList? (rest.headD "") with
     | some vs =>
